@@ -35,6 +35,12 @@ def cases(tier, seed):
                             nlevels=min(c["gen"]["nlevels"], 2))
             c["gen"].pop("length_scale", None)
             c["gen"].pop("maxsz", None)
+        if i % 8 in (1, 5) and "names" not in c["gen"]:
+            # a name written twice next to a field that is literally called like the key a reader would make up for
+            # the repetition (`Y(OH)`, `Y(OH)_2`, `Y(OH)`); every other time plain repetitions
+            c["gen"]["names"] = (["density", "Y(OH)", "Y(OH)_2", "Y(OH)", "Y(OH)_2"] if i % 8 == 1 else
+                                 ["rho", "temp", "rho", "rho"])[:max(4, min(c["gen"].get("nfields", 4), 5))]
+            c["gen"].pop("nfields", None)
         if i % 4 == 2 and c["gen"].get("payload") == "random":
             # fields that are exactly zero in whole boxes (an absent species, a fluid at rest): extrema of 0.0
             c["zero_fine"] = True
